@@ -117,6 +117,9 @@ def run(ctx: Ctx) -> None:
     n3 = _budget_models(ctx)
     ctx.floor("C14.R3", n3, 3, "budget predicates (evaluation, any-of, target)")
 
+    ctx.rule("C14.R6", "front ends that assemble a budget from parameters include every budget given: a target of 0 is a target")
+    ctx.floor("C14.R6", _builder_models(ctx), 3, "budget parameters of budget-assembling functions")
+
     # counter plumbing: tracker.get_number_evaluations -> evaluator.number_of_evaluations
     tr = prog.get_class(TRACKER)
     g = tr.methods.get("get_number_evaluations")
@@ -327,7 +330,14 @@ def _budget_models(ctx: Ctx) -> int:
                     it.trace.append(Effect("call", "member.is_done", tuple(args), {}, node=call, recv=recv))
                     return tracker_model[recv.tag]
                 if nm == "get_fitness" and isinstance(recv, Sym) and recv.tag == "best":
-                    return tracker_model["fitness"]
+                    # Individual.get_fitness(problem): the fitness stored for that problem; without a problem (or None) the one
+                    # stored for the FIRST problem the individual was ever evaluated for - here another, earlier problem
+                    asked = args[0] if args else kwargs.get("problem", _NONE)
+                    if asked == Sym("problem"):
+                        return tracker_model["fitness"]
+                    if asked is _NONE or asked is None:
+                        return tracker_model.get("decoy", tracker_model["fitness"])
+                    return UNKNOWN
                 return None
             it = Interp(prog, c, lambda *_: None, call_model, max_depth=4, max_traces=8)
             env = {"self": Sym("self"), d.params[1]: Sym("tracker")}
@@ -393,15 +403,156 @@ def _budget_models(ctx: Ctx) -> int:
                                             (5.0, 4.0, 5.0, False), (0.0, 0.00003, -0.00003, True), (0.0, 0.5, -0.5, False),
                                             (1000.0, 1000.00003, -1000.00003, True), (1000.0, 1000.04, -1000.04, False)):
                 fit = Obj("Fitness", {"maximizing_aggregate": agg, "fitness_components": [comp]})
-                rv, _ = run_case({"get_best_individual": Sym("best"), "get_problem": Sym("problem"), "fitness": fit}, {attr: target})
+                # the fitness the same individual holds for an earlier problem gives the opposite answer
+                other = (target + 3.0) if want else target
+                decoy = Obj("Fitness", {"maximizing_aggregate": -other, "fitness_components": [other]})
+                rv, _ = run_case({"get_best_individual": Sym("best"), "get_problem": Sym("problem"), "fitness": fit, "decoy": decoy}, {attr: target})
                 if rv is UNKNOWN or rv is None:
                     und = und or "result not followed"
                 elif bool(rv) != want and bad is None:
                     bad = (f"target {target}, best individual with fitness component {comp} (maximising aggregate {agg}): is_done is {rv}, expected {want} - "
-                           f"the target is compared with something other than the best individual's first fitness component within the (absolute) tolerance")
+                           f"the target is compared with something other than the first fitness component the best individual holds for the tracker's problem, within the (absolute) tolerance")
             ctx.ob("C14.R3", d, d.node, f"{c.name} compares best.fitness_components[0] with the target within a tolerance", False if bad else (None if und else True),
                    bad or und or "")
+        elif "get_elapsed_time" in calls and len(stored) == 1:
+            n3 += 1
+            attr = next(iter(stored))
+            bad = und = None
+            for t_, want in ((9.5, False), (10.0, True), (10.5, True), (60.0, True)):
+                rv, _ = run_case({"get_elapsed_time": t_}, {attr: 10.0})
+                if rv is UNKNOWN or rv is None:
+                    und = und or "result not followed"
+                elif bool(rv) != want and bad is None:
+                    bad = f"with a time budget of 10 and {t_} elapsed is_done is {rv}"
+            ctx.ob("C14.R3", d, d.node, f"{c.name}.is_done == (elapsed time >= limit)", False if bad else (None if und else True), bad or und or "")
+        elif "get_best_individuals" in calls and len(stored) == 1:
+            n3 += 1
+            attr = next(iter(stored))
+            # one target per objective, or one target for all objectives: whichever reading the class answers consistently
+            readings = {"one target per objective": ([1.0, 2.0], (([1.0, 2.0], True), ([1.0, 2.0004], True), ([1.0, 2.5], False), ([1.5, 2.0], False))),
+                        "one target for every objective": (2.0, (([2.0, 2.0], True), ([2.0, 2.0004], True), ([2.0, 3.0], False), ([3.0, 2.0], False)))}
+            verdicts = {}
+            for label, (target, cases) in readings.items():
+                bad = und = None
+                for comps, want in cases:
+                    fit = Obj("Fitness", {"maximizing_aggregate": sum(comps), "fitness_components": list(comps)})
+                    off = [x + 3.0 for x in comps] if want else ([target] * 2 if not isinstance(target, list) else list(target))
+                    decoy = Obj("Fitness", {"maximizing_aggregate": sum(off), "fitness_components": off})
+                    rv, traces = run_case({"get_best_individuals": [Sym("best")], "get_problem": Sym("problem"), "fitness": fit, "decoy": decoy}, {attr: target})
+                    if rv is UNKNOWN or rv is None:
+                        und = und or "result not followed"
+                    elif bool(rv) != want and bad is None:
+                        bad = (f"targets {target}, best individual with fitness components {comps} for the tracker's problem: is_done is {rv}, expected {want} - "
+                               f"the targets are compared with something other than the components the best individual holds for the tracker's problem")
+                verdicts[label] = (bad, und)
+            announced = _reading_of(init)
+            considered = {announced: verdicts[announced]} if announced else verdicts
+            ok = [l for l, (b_, u_) in considered.items() if not b_ and not u_]
+            title = f"{c.name} compares the fitness components the best individual holds for the tracker's problem with its targets"
+            if ok:
+                ctx.ob("C14.R3", d, d.node, title + f" ({ok[0]})", True, "")
+            elif all(b_ and not u_ for b_, u_ in considered.values()):
+                ctx.ob("C14.R3", d, d.node, title, False, next(iter(considered.values()))[0])
+            else:
+                ctx.ob("C14.R3", d, d.node, title, None, "; ".join(f"{l}: {b_ or u_}" for l, (b_, u_) in considered.items())[:300])
     return n3
+
+
+def _builder_models(ctx: Ctx) -> int:
+    """Functions outside the budget module that construct a SearchBudget from one of their own parameters (geml's SimpleGP.build_budget)
+    are interpreted with that parameter set to 0, 0.0, a negative and a positive number (the other parameters distinct numbers): the
+    budget object returned must contain a budget of that class built from that very value - `if target:` would drop a target of 0, and
+    the search would run to its evaluation budget although the target was met."""
+    from ..modelinterp import Budget, Interp, Obj, Sym, UNKNOWN, _NONE
+    prog, res = ctx.prog, ctx.res
+    bclasses = {c.name: c for c in prog.subclasses(BUDGET) if c.fullname != BUDGET}
+    n = 0
+    for f in sorted(prog.functions.values(), key=lambda x: x.fullname):
+        if f.parent is not None or (f.cls is not None and prog.is_subclass(f.cls, BUDGET)):
+            continue
+        sites = []
+        for c in walk_local(f.node):
+            if isinstance(c, ast.Call) and call_name(c) in bclasses and isinstance(c.func, ast.Name) and len(c.args) == 1:
+                a0 = c.args[0]
+                if isinstance(a0, ast.Name) and a0.id in f.params and a0.id != "self":
+                    sites.append((c, call_name(c), a0.id))
+                elif is_self_attr(a0) and f.params and f.params[0] == "self" and f.cls is not None \
+                        and sum(1 for c3 in ast.walk(f.node) if isinstance(c3, ast.Call) and call_name(c3) in bclasses) >= 2:
+                    sites.append((c, call_name(c), "self." + a0.attr))     # a builder method reading configured attributes
+        for call, kname, pname in sites:
+            n += 1
+            k = bclasses[kname]
+            done = prog.lookup_method(k, "is_done")
+            target_like = done is not None and any(isinstance(x, ast.Call) and call_name(x) in ("get_best_individual", "get_best_individuals") for x in ast.walk(done.node))
+            values = (0, 0.0, -2.5, 7) if target_like else (1, 7)
+
+            def call_model(it, c_, env, args, kwargs):
+                nm = call_name(c_)
+                if nm in bclasses and isinstance(c_.func, ast.Name):
+                    return Obj("budget:" + nm, {"args": list(args), "kwargs": dict(kwargs)})
+                return None
+
+            def contains(v, cls, val, depth=0) -> bool:
+                if depth > 8:
+                    return False
+                if isinstance(v, Obj):
+                    if v.cls == "budget:" + cls and any(a == val and type(a) is type(val) for a in v.fields.get("args", [])):
+                        return True
+                    return any(contains(a, cls, val, depth + 1) for a in list(v.fields.get("args", [])) + list(v.fields.get("kwargs", {}).values()))
+                if isinstance(v, (list, tuple)):
+                    return any(contains(a, cls, val, depth + 1) for a in v)
+                return False
+
+            bad = und = None
+            for val in values:
+                env = {}
+                others = iter((11, 13, 17, 19, 23))
+                for q in f.params:
+                    env[q] = Sym("self") if q == "self" else (val if q == pname else next(others, 29))
+                if pname.startswith("self."):
+                    for a_ in {x.attr for x in ast.walk(f.node) if is_self_attr(x)}:
+                        env["self." + a_] = val if "self." + a_ == pname else next(others, 29)
+                it = Interp(prog, f.cls, lambda *_: None, call_model, max_depth=6, max_traces=8)
+                try:
+                    runs = it.run(f, env)
+                except Budget:
+                    und = und or "too many interpretations"
+                    continue
+                for trace, rv, notes in runs:
+                    if notes:
+                        und = und or notes[0]
+                    elif any(e.kind == "raise" for e in trace):
+                        und = und or "the function raises in the model"
+                    elif rv is UNKNOWN or rv is None or rv is _NONE and False:
+                        und = und or "returned budget not followed"
+                    elif not contains(rv, kname, val) and bad is None:
+                        bad = (f"{f.qualname}({pname}={val!r}) returns a budget without {kname}({val!r}): "
+                               + (f"a target of {val!r} is treated as 'no target' and the search runs on to its other budgets although the target is met"
+                                  if target_like else "a budget the caller gave is dropped"))
+            ctx.ob("C14.R6", f, call, f"{f.qualname}: the budget returned contains {kname}(<{pname}>) for every value given", False if bad else (None if und else True), bad or und or "")
+            # the callers hand the parameter over unchanged ('x or None' would turn 0 into 'absent')
+            for g in prog.functions.values():
+                if pname.startswith("self."):
+                    break
+                for c2 in res.calls_in(g, include_nested=False):
+                    if call_name(c2) == f.name and isinstance(c2.func, ast.Attribute):
+                        idx = f.params.index(pname) - (1 if f.params and f.params[0] == "self" else 0)
+                        arg = c2.args[idx] if idx < len(c2.args) else next((kw.value for kw in c2.keywords if kw.arg == pname), None)
+                        if isinstance(arg, ast.BoolOp) and isinstance(arg.op, ast.Or):
+                            ctx.ob("C14.R6", g, c2, f"{pname} handed to {f.name} unchanged", False,
+                                   f"'{norm(arg)}' replaces a {pname} of 0 by its fall-back before the budget is built")
+    return n
+
+
+def _reading_of(init) -> Optional[str]:
+    """which of the two readings the constructor's annotation announces"""
+    if init is None:
+        return None
+    args = init.node.args.args[1:]
+    if len(args) != 1 or args[0].annotation is None:
+        return None
+    txt = norm(args[0].annotation)
+    return "one target per objective" if any(k in txt for k in ("list", "List", "Sequence", "tuple")) else "one target for every objective"
 
 
 def _in_nested_loop(x: ast.AST, loop: ast.AST) -> bool:
